@@ -307,3 +307,409 @@ Section Need.
         apply Nat.eqb_eq in Eo; apply Nat.eqb_eq in Eg; subst; lia.
   Qed.
 End Need.
+
+(* ------------------------------------------------------------------------------------------
+   Frame 1: a feature that is enabled with ref_count <= 0 is not touched by any release call aimed elsewhere
+   (decr_ref_count on it is refused, so no cascade can reach its disable). *)
+Section Protected.
+  Variable T : tables.
+  Variables (o f : nat).
+
+  Definition prem (s : state) : Prop := is_enabled s o f = true /\ rc s o f <= 0.
+  Definition keeps (s s' : state) : Prop := prem s -> get_fs s' o f = get_fs s o f.
+
+  Lemma keeps_refl s : keeps s s.
+  Proof. intros _. reflexivity. Qed.
+
+  Lemma prem_transport s s' : prem s -> get_fs s' o f = get_fs s o f -> prem s'.
+  Proof. intros [A B] E. unfold prem, is_enabled, rc in *. rewrite E. auto. Qed.
+
+  Lemma keeps_trans a b c : keeps a b -> keeps b c -> keeps a c.
+  Proof. intros H1 H2 P. pose proof (H1 P) as E1. rewrite <- E1. apply H2. eapply prem_transport; eassumption. Qed.
+
+  Lemma keeps_set_fs_other s o' h u : (o', h) <> (o, f) -> keeps s (set_fs s o' h u).
+  Proof.
+    intros N _. apply get_fs_other. destruct (Nat.eq_dec o o') as [->|]; [|left; congruence].
+    right. intros ->. apply N. reflexivity.
+  Qed.
+
+  Definition dprot (D : dfun) : Prop :=
+    forall o' h s r s', D o' h s = Some (r, s') -> (o', h) <> (o, f) -> keeps s s'.
+
+  Lemma keeps_loop_all (call : nat -> state -> res) :
+    (forall g s r s', call g s = Some (r, s') -> keeps s s') ->
+    forall gs s s', loop_all call gs s = Some s' -> keeps s s'.
+  Proof. apply (loop_all_rel keeps keeps_refl keeps_trans). Qed.
+
+  Lemma keeps_decr_with D : dprot D -> forall o' h s r s', decr_with T D o' h s = Some (r, s') -> keeps s s'.
+  Proof.
+    intros HD o' h s r s' H P. unfold decr_with in H.
+    destruct (fs_rc (get_fs s o' h) <=? 0) eqn:E; [inversion H; subst; reflexivity|].
+    assert (N : (o', h) <> (o, f)).
+    { intros Heq. inversion Heq; subst. destruct P as [_ P]. unfold rc in P. apply Z.leb_gt in E. lia. }
+    pose proof (keeps_set_fs_other s o' h fs_decr N) as K1.
+    destruct ((fs_rc (get_fs s o' h) - 1 =? 0) && is_dynamic (feat T (cls_of s o') h))%bool.
+    - destruct (D o' h (set_fs s o' h fs_decr)) as [[b s2]|] eqn:E2; [|discriminate]. inversion H; subst.
+      apply (keeps_trans _ _ _ K1 (HD _ _ _ _ _ E2 N)). exact P.
+    - inversion H; subst. apply K1. exact P.
+  Qed.
+
+  Lemma keeps_decr_children D : dprot D -> forall cs gs s s', decr_children T D cs gs s = Some s' -> keeps s s'.
+  Proof.
+    intros HD cs gs s s'. unfold decr_children. apply keeps_loop_all. intros g s1 r s2 H.
+    destruct (loop_all _ cs s1) as [s3|] eqn:E1; [|discriminate]. inversion H; subst.
+    revert E1. apply keeps_loop_all. intros c s4 r' s5 H2. eapply keeps_decr_with; eassumption.
+  Qed.
+
+  Lemma keeps_free_with D : dprot D -> forall o' s s', free_with T D o' s = Some s' -> keeps s s'.
+  Proof.
+    intros HD o' s s'. unfold free_with. apply keeps_loop_all. intros fid s1 r s2 H.
+    destruct (is_enabled s1 o' fid).
+    - destruct (decr_children T D _ _ s1) as [s3|] eqn:E1; [|discriminate]. inversion H; subst.
+      eapply keeps_decr_children; eassumption.
+    - inversion H; subst. apply keeps_refl.
+  Qed.
+
+  Lemma disable_dprot n : dprot (disable T n).
+  Proof.
+    induction n as [|n IH]; intros o' h s r s' H N; cbn [disable] in H; [discriminate|].
+    destruct (negb (fs_enabled (get_fs s o' h))); [inversion H; subst; apply keeps_refl|].
+    destruct (0 <? fs_rc (get_fs s o' h)); [inversion H; subst; apply keeps_refl|].
+    destruct (loop_all _ (f_self (feat T (cls_of s o') h)) s) as [s1|] eqn:E1; [|discriminate].
+    assert (K1 : keeps s s1).
+    { revert E1. apply keeps_loop_all. intros g s0 r0 s0' H0. eapply keeps_decr_with; eassumption. }
+    destruct (loop_all _ (fs_alt (get_fs s1 o' h)) s1) as [s2|] eqn:E2; [|discriminate].
+    assert (K2 : keeps s1 s2).
+    { revert E2. apply keeps_loop_all. intros g s0 r0 s0' H0. eapply keeps_decr_with; eassumption. }
+    set (s3 := set_fs s2 o' h fs_clear_alt) in *.
+    assert (K3 : keeps s2 s3) by (apply keeps_set_fs_other; exact N).
+    destruct (if is_enabled s3 o' 0 then decr_children T (disable T n) (o_children (get_obj s3 o')) (f_children (feat T (cls_of s o') h)) s3 else Some s3) as [s4|] eqn:E4; [|discriminate].
+    assert (K4 : keeps s3 s4).
+    { destruct (is_enabled s3 o' 0); [eapply keeps_decr_children; eassumption | inversion E4; subst; apply keeps_refl]. }
+    assert (K5 : keeps s4 (set_fs s4 o' h fs_turn_off)) by (apply keeps_set_fs_other; exact N).
+    assert (K05 : keeps s (set_fs s4 o' h fs_turn_off)).
+    { eapply keeps_trans; [exact K1|]. eapply keeps_trans; [exact K2|]. eapply keeps_trans; [exact K3|]. eapply keeps_trans; eassumption. }
+    destruct (h =? 0)%nat.
+    - destruct (free_with T (disable T n) o' _) as [s6|] eqn:E6; [|discriminate]. inversion H; subst.
+      eapply keeps_trans; [exact K05|]. eapply keeps_free_with; eassumption.
+    - inversion H; subst. exact K05.
+  Qed.
+End Protected.
+
+(* ------------------------------------------------------------------------------------------
+   Frame 2: with a height that decreases from parent to child, a release call on object c changes only objects
+   of height <= height(c); the decrements made in the children of p change only objects strictly below p. *)
+Section Height.
+  Variable T : tables.
+  Variable ht : nat -> nat.
+  Variable s0 : state.
+  Hypothesis Hht : forall p c, In c (o_children (get_obj s0 p)) -> (ht c < ht p)%nat.
+
+  (* objects of height >= k are untouched (and the shape is kept) *)
+  Definition below (k : nat) (s s' : state) : Prop :=
+    same_shape s0 s -> same_shape s0 s' /\ forall x, (k <= ht x)%nat -> get_obj s' x = get_obj s x.
+
+  Lemma below_refl k s : below k s s.
+  Proof. intros S. split; [exact S | reflexivity]. Qed.
+
+  Lemma below_trans k a b c : below k a b -> below k b c -> below k a c.
+  Proof.
+    intros H1 H2 S. destruct (H1 S) as (S1 & E1). destruct (H2 S1) as (S2 & E2). split; [exact S2|].
+    intros x Hx. rewrite E2, E1; auto.
+  Qed.
+
+  Lemma below_mono k k' s s' : (k <= k')%nat -> below k s s' -> below k' s s'.
+  Proof. intros L H S. destruct (H S) as (S1 & E1). split; [exact S1|]. intros x Hx. apply E1. lia. Qed.
+
+  Lemma below_set_fs s c h u : (forall x, fs_avail (u x) = fs_avail x) -> below (S (ht c)) s (set_fs s c h u).
+  Proof.
+    intros Hu S. split; [eapply same_shape_trans; [exact S | apply set_fs_shape; exact Hu]|].
+    intros x Hx. rewrite get_obj_set_fs. destruct (x =? c)%nat eqn:E; [|reflexivity].
+    apply Nat.eqb_eq in E. subst x. lia.
+  Qed.
+
+  Definition dbelow (D : dfun) : Prop := forall c h s r s', D c h s = Some (r, s') -> below (S (ht c)) s s'.
+
+  Lemma below_loop_all k (call : nat -> state -> res) :
+    (forall g s r s', call g s = Some (r, s') -> below k s s') ->
+    forall gs s s', loop_all call gs s = Some s' -> below k s s'.
+  Proof. apply (loop_all_rel (below k) (below_refl k) (below_trans k)). Qed.
+
+  Lemma below_decr_with D : dbelow D -> forall c h s r s', decr_with T D c h s = Some (r, s') -> below (S (ht c)) s s'.
+  Proof.
+    intros HD c h s r s' H. unfold decr_with in H.
+    destruct (fs_rc (get_fs s c h) <=? 0); [inversion H; subst; apply below_refl|].
+    pose proof (below_set_fs s c h fs_decr (fun x => eq_refl)) as K1.
+    destruct ((fs_rc (get_fs s c h) - 1 =? 0) && is_dynamic (feat T (cls_of s c) h))%bool.
+    - destruct (D c h (set_fs s c h fs_decr)) as [[b s2]|] eqn:E2; [|discriminate]. inversion H; subst.
+      eapply below_trans; [exact K1 | eapply HD; exact E2].
+    - inversion H; subst. exact K1.
+  Qed.
+
+  Lemma below_decr_list D k g : dbelow D -> forall cs, (forall c, In c cs -> (ht c < k)%nat) ->
+    forall a b, loop_all (fun c s' => decr_with T D c g s') cs a = Some b -> below k a b.
+  Proof.
+    intros HD. induction cs as [|c cs IH]; intros Hcs a b Hl; cbn [loop_all] in Hl; [inversion Hl; subst; apply below_refl|].
+    destruct (decr_with T D c g a) as [[rr a1]|] eqn:Ed; [|discriminate].
+    eapply below_trans.
+    - eapply below_mono; [|eapply below_decr_with; [exact HD | exact Ed]]. pose proof (Hcs c (or_introl eq_refl)). lia.
+    - apply IH; [intros c' Hc'; apply Hcs; right; exact Hc' | exact Hl].
+  Qed.
+
+  Lemma below_decr_children D k : dbelow D -> forall cs gs, (forall c, In c cs -> (ht c < k)%nat) ->
+    forall s s', decr_children T D cs gs s = Some s' -> below k s s'.
+  Proof.
+    intros HD cs gs Hcs s s'. unfold decr_children. apply below_loop_all. intros g s1 r s2 H1.
+    destruct (loop_all _ cs s1) as [s3|] eqn:E1; [|discriminate]. inversion H1; subst.
+    eapply below_decr_list; eassumption.
+  Qed.
+
+  Lemma shaped_children_lt s p c : same_shape s0 s -> In c (o_children (get_obj s p)) -> (ht c < ht p)%nat.
+  Proof. intros [_ S] H. apply Hht. destruct (S p) as (_ & A & _). rewrite <- A. exact H. Qed.
+
+  Lemma below_free_with D p : dbelow D -> forall s s', free_with T D p s = Some s' -> below (ht p) s s'.
+  Proof.
+    intros HD s s'. unfold free_with. apply below_loop_all. intros fid s1 r s2 H S.
+    destruct (is_enabled s1 p fid).
+    - destruct (decr_children T D _ _ s1) as [s3|] eqn:E1; [|discriminate]. inversion H; subst.
+      eapply (below_decr_children D (ht p) HD); [|exact E1|exact S]. intros c Hc. eapply shaped_children_lt; eassumption.
+    - inversion H; subst. apply below_refl. exact S.
+  Qed.
+
+  Lemma disable_dbelow n : dbelow (disable T n).
+  Proof.
+    induction n as [|n IH]; intros c h s r s' H; cbn [disable] in H; [discriminate|].
+    destruct (negb (fs_enabled (get_fs s c h))); [inversion H; subst; apply below_refl|].
+    destruct (0 <? fs_rc (get_fs s c h)); [inversion H; subst; apply below_refl|].
+    destruct (loop_all _ (f_self (feat T (cls_of s c) h)) s) as [s1|] eqn:E1; [|discriminate].
+    assert (K1 : below (S (ht c)) s s1).
+    { revert E1. apply below_loop_all. intros g a r0 b H0. eapply below_decr_with; eassumption. }
+    destruct (loop_all _ (fs_alt (get_fs s1 c h)) s1) as [s2|] eqn:E2; [|discriminate].
+    assert (K2 : below (S (ht c)) s1 s2).
+    { revert E2. apply below_loop_all. intros g a r0 b H0. eapply below_decr_with; eassumption. }
+    set (s3 := set_fs s2 c h fs_clear_alt) in *.
+    assert (K3 : below (S (ht c)) s2 s3) by (apply below_set_fs; intros x; reflexivity).
+    destruct (if is_enabled s3 c 0 then decr_children T (disable T n) (o_children (get_obj s3 c)) (f_children (feat T (cls_of s c) h)) s3 else Some s3) as [s4|] eqn:E4; [|discriminate].
+    assert (K4 : below (S (ht c)) s3 s4).
+    { destruct (is_enabled s3 c 0); [|inversion E4; subst; apply below_refl].
+      intros S. eapply (below_mono (ht c)); [lia| |exact S].
+      eapply (below_decr_children (disable T n) (ht c) IH); [|exact E4]. intros x Hx. eapply shaped_children_lt; eassumption. }
+    assert (K5 : below (S (ht c)) s4 (set_fs s4 c h fs_turn_off)) by (apply below_set_fs; intros x; reflexivity).
+    assert (K05 : below (S (ht c)) s (set_fs s4 c h fs_turn_off)).
+    { eapply below_trans; [exact K1|]. eapply below_trans; [exact K2|]. eapply below_trans; [exact K3|]. eapply below_trans; eassumption. }
+    destruct (h =? 0)%nat.
+    - destruct (free_with T (disable T n) c _) as [s6|] eqn:E6; [|discriminate]. inversion H; subst.
+      eapply below_trans; [exact K05|]. eapply (below_mono (ht c)); [lia|]. eapply below_free_with; [exact IH | exact E6].
+    - inversion H; subst. exact K05.
+  Qed.
+End Height.
+
+(* ------------------------------------------------------------------------------------------
+   Main result: the excess never goes down across a complete disable. *)
+Section Monotone.
+  Variable T : tables.
+  Variable ht : nat -> nat.
+  Variable s0 : state.
+  Hypothesis Hht : forall p c, In c (o_children (get_obj s0 p)) -> (ht c < ht p)%nat.
+
+  Notation shaped := (same_shape s0).
+  Notation exc := (excess T).
+
+  Definition dshape (D : dfun) : Prop := forall o f s r s', D o f s = Some (r, s') -> same_shape s s'.
+  Definition dmono (D : dfun) : Prop :=
+    forall o f s r s', D o f s = Some (r, s') -> shaped s -> forall o' g, exc s o' g <= exc s' o' g.
+
+  Lemma disable_dshape n : dshape (disable T n).
+  Proof.
+    intros o f s r s' H. eapply (disable_rel T same_shape same_shape_refl same_shape_trans); try exact H;
+      intros; apply set_fs_shape; intros x; reflexivity.
+  Qed.
+
+  Section WithD.
+    Variable D : dfun.
+    Hypothesis Dshape : dshape D.
+    Hypothesis Dmono : dmono D.
+    Hypothesis Dbelow : dbelow ht s0 D.
+
+    Lemma shape_decr_with o h s r s' : decr_with T D o h s = Some (r, s') -> same_shape s s'.
+    Proof.
+      apply (decr_with_rel T same_shape same_shape_refl same_shape_trans); [intros; apply set_fs_shape; intros x; reflexivity | exact Dshape].
+    Qed.
+
+    Lemma shape_decr_children cs gs s s' : decr_children T D cs gs s = Some s' -> same_shape s s'.
+    Proof.
+      apply (decr_children_rel T same_shape same_shape_refl same_shape_trans); [intros; apply set_fs_shape; intros x; reflexivity | exact Dshape].
+    Qed.
+
+    Lemma mono_decr_with o h s r s' : decr_with T D o h s = Some (r, s') -> shaped s ->
+      forall o' g, exc s o' g - (if (o' =? o)%nat && (g =? h)%nat then 1 else 0) <= exc s' o' g.
+    Proof.
+      intros H S o' g. unfold decr_with in H.
+      destruct (fs_rc (get_fs s o h) <=? 0); [inversion H; subst; destruct (_ && _); lia|].
+      assert (E1 : exc s o' g - (if (o' =? o)%nat && (g =? h)%nat then 1 else 0) <= exc (set_fs s o h fs_decr) o' g).
+      { rewrite excess_decr. destruct ((o' =? o)%nat && (g =? h)%nat); destruct (h <? nf s o)%nat; cbn [andb]; lia. }
+      destruct ((fs_rc (get_fs s o h) - 1 =? 0) && is_dynamic (feat T (cls_of s o) h))%bool.
+      - destruct (D o h (set_fs s o h fs_decr)) as [[b s2]|] eqn:E2; [|discriminate]. inversion H; subst.
+        assert (S1 : shaped (set_fs s o h fs_decr)) by (eapply same_shape_trans; [exact S | apply set_fs_shape; intros x; reflexivity]).
+        pose proof (Dmono _ _ _ _ _ E2 S1 o' g). lia.
+      - inversion H; subst. exact E1.
+    Qed.
+
+    (* a list of decrements on features of one object *)
+    Lemma mono_decr_feats o : forall L s s', loop_all (fun g st => decr_with T D o g st) L s = Some s' -> shaped s ->
+      shaped s' /\ forall o' g, exc s o' g - (if (o' =? o)%nat then zcnt g L else 0) <= exc s' o' g.
+    Proof.
+      induction L as [|h L IH]; intros s s' H S; cbn [loop_all] in H.
+      - inversion H; subst. split; [exact S|]. intros o' g. rewrite zcnt_nil. destruct (o' =? o)%nat; lia.
+      - destruct (decr_with T D o h s) as [[r s1]|] eqn:E; [|discriminate].
+        assert (S1 : shaped s1) by (eapply same_shape_trans; [exact S | eapply shape_decr_with; exact E]).
+        destruct (IH s1 s' H S1) as (S' & M). split; [exact S'|]. intros o' g.
+        pose proof (mono_decr_with _ _ _ _ _ E S o' g) as M1. specialize (M o' g). rewrite zcnt_cons.
+        destruct (o' =? o)%nat; cbn [andb] in *; [|lia].
+        destruct (g =? h)%nat eqn:Eg; destruct (Nat.eq_dec h g) as [Heq|Hne];
+          try (apply Nat.eqb_eq in Eg; congruence); try (apply Nat.eqb_neq in Eg; congruence); lia.
+    Qed.
+
+    (* one feature g0 decremented in a list of objects *)
+    Lemma mono_decr_objs g0 : forall cs s s', loop_all (fun c st => decr_with T D c g0 st) cs s = Some s' -> shaped s ->
+      shaped s' /\ forall o' g, exc s o' g - (if (g =? g0)%nat then zcnt o' cs else 0) <= exc s' o' g.
+    Proof.
+      induction cs as [|c cs IH]; intros s s' H S; cbn [loop_all] in H.
+      - inversion H; subst. split; [exact S|]. intros o' g. rewrite zcnt_nil. destruct (g =? g0)%nat; lia.
+      - destruct (decr_with T D c g0 s) as [[r s1]|] eqn:E; [|discriminate].
+        assert (S1 : shaped s1) by (eapply same_shape_trans; [exact S | eapply shape_decr_with; exact E]).
+        destruct (IH s1 s' H S1) as (S' & M). split; [exact S'|]. intros o' g.
+        pose proof (mono_decr_with _ _ _ _ _ E S o' g) as M1. specialize (M o' g). rewrite zcnt_cons.
+        destruct (g =? g0)%nat; rewrite ?andb_false_r, ?andb_true_r in *; [|lia].
+        destruct (o' =? c)%nat eqn:Eo; destruct (Nat.eq_dec c o') as [Heq|Hne];
+          try (apply Nat.eqb_eq in Eo; congruence); try (apply Nat.eqb_neq in Eo; congruence); lia.
+    Qed.
+
+    Lemma mono_decr_children cs : forall gs s s', decr_children T D cs gs s = Some s' -> shaped s ->
+      shaped s' /\ forall o' g, exc s o' g - zcnt o' cs * zcnt g gs <= exc s' o' g.
+    Proof.
+      unfold decr_children. induction gs as [|g0 gs IH]; intros s s' H S; cbn [loop_all] in H.
+      - inversion H; subst. split; [exact S|]. intros o' g. rewrite zcnt_nil. lia.
+      - destruct (loop_all (fun c s'0 => decr_with T D c g0 s'0) cs s) as [s1|] eqn:E; [|discriminate].
+        destruct (mono_decr_objs g0 cs s s1 E S) as (S1 & M1).
+        destruct (IH s1 s' H S1) as (S' & M). split; [exact S'|]. intros o' g.
+        specialize (M1 o' g). specialize (M o' g). rewrite zcnt_cons.
+        pose proof (zcnt_nonneg o' cs).
+        destruct (g =? g0)%nat eqn:Eg; destruct (Nat.eq_dec g0 g) as [Heq|Hne];
+          try (apply Nat.eqb_eq in Eg; congruence); try (apply Nat.eqb_neq in Eg; congruence); nia.
+    Qed.
+
+    (* free_children_deps of o: at most (occurrences among o's children) x (what o's enabled features require) *)
+    Lemma mono_free_list o s : forall fl a b,
+      loop_all (fun fid st1 =>
+        if is_enabled st1 o fid then
+          match decr_children T D (o_children (get_obj st1 o)) (f_children (feat T (cls_of st1 o) fid)) st1 with
+          | None => None | Some s => Some (true, s) end
+        else Some (true, st1)) fl a = Some b ->
+      shaped a -> get_obj a o = get_obj s o ->
+      shaped b /\ get_obj b o = get_obj s o /\
+      forall o' g, exc a o' g - zcnt o' (o_children (get_obj s o)) * zsum fl (termC T s o g) <= exc b o' g.
+    Proof.
+      induction fl as [|fid fl IH]; intros a b H S Eo; cbn [loop_all] in H.
+      - inversion H; subst. split; [exact S|]. split; [exact Eo|]. intros o' g. cbn [zsum]. lia.
+      - assert (Een : is_enabled a o fid = is_enabled s o fid) by (unfold is_enabled, get_fs; rewrite Eo; reflexivity).
+        assert (Ecl : cls_of a o = cls_of s o) by (unfold cls_of; rewrite Eo; reflexivity).
+        rewrite Een, Ecl, Eo in H. cbn [zsum]. unfold termC at 1.
+        destruct (is_enabled s o fid).
+        + destruct (decr_children T D (o_children (get_obj s o)) (f_children (feat T (cls_of s o) fid)) a) as [a1|] eqn:E1; [|discriminate].
+          destruct (mono_decr_children _ _ _ _ E1 S) as (S1 & M1).
+          assert (Eo1 : get_obj a1 o = get_obj s o).
+          { rewrite <- Eo.
+            assert (Bl : below ht s0 (ht o) a a1).
+            { eapply (below_decr_children T ht s0 D (ht o) Dbelow); [|exact E1]. intros c Hc.
+              apply Hht. destruct S as [_ S]. destruct (S o) as (_ & A & _). rewrite <- A, Eo. exact Hc. }
+            destruct (Bl S) as (_ & Bl2). apply Bl2. lia. }
+          destruct (IH a1 b H S1 Eo1) as (S' & Eo' & M). split; [exact S'|]. split; [exact Eo'|].
+          intros o' g. specialize (M1 o' g). specialize (M o' g). nia.
+        + destruct (IH a b H S Eo) as (S' & Eo' & M). split; [exact S'|]. split; [exact Eo'|].
+          intros o' g. specialize (M o' g). lia.
+    Qed.
+
+    Lemma mono_free_with o s s' : free_with T D o s = Some s' -> shaped s ->
+      shaped s' /\ get_obj s' o = get_obj s o /\
+      forall o' g, exc s o' g - zcnt o' (o_children (get_obj s o)) * wch T s o g <= exc s' o' g.
+    Proof.
+      intros H S. unfold free_with in H. apply (mono_free_list o s _ s s' H S eq_refl).
+    Qed.
+  End WithD.
+
+  Lemma shaped_cls s s' o : shaped s -> shaped s' -> cls_of s' o = cls_of s o.
+  Proof. intros [_ A] [_ B]. destruct (A o) as (A1 & _). destruct (B o) as (B1 & _). unfold cls_of. congruence. Qed.
+
+  Lemma wch_ge_term s o g f : (f <? nf s o)%nat = true -> termC T s o g f <= wch T s o g.
+  Proof.
+    intros H. unfold wch. apply zsum_ge_term; [apply in_seq; apply Nat.ltb_lt in H; lia | intros; apply termC_nonneg].
+  Qed.
+
+  Lemma disable_dmono n : dmono (disable T n).
+  Proof.
+    induction n as [|n IH]; intros o f s r s' H S o' g; cbn [disable] in H; [discriminate|].
+    destruct (negb (fs_enabled (get_fs s o f))) eqn:En; [inversion H; subst; lia|].
+    destruct (0 <? fs_rc (get_fs s o f)) eqn:Erc; [inversion H; subst; lia|].
+    apply negb_false_iff in En. apply Z.ltb_ge in Erc.
+    assert (P0 : prem o f s) by (split; [exact En | exact Erc]).
+    pose proof (disable_dshape n) as Dsh. pose proof (disable_dbelow T ht s0 Hht n) as Dbe.
+    pose proof (disable_dprot T o f n) as Dpr.
+    set (L1 := f_self (feat T (cls_of s o) f)) in *. set (L3 := f_children (feat T (cls_of s o) f)) in *.
+    (* requires_self *)
+    destruct (loop_all _ L1 s) as [s1|] eqn:E1; [|discriminate].
+    destruct (mono_decr_feats (disable T n) Dsh IH o L1 s s1 E1 S) as (S1 & M1).
+    assert (K1 : get_fs s1 o f = get_fs s o f).
+    { eapply (keeps_loop_all o f); [|exact E1|exact P0]. intros g0 a r0 b H0. eapply (keeps_decr_with T o f); [exact Dpr | exact H0]. }
+    assert (P1 : prem o f s1) by (eapply prem_transport; eassumption).
+    (* alternates *)
+    destruct (loop_all _ (fs_alt (get_fs s1 o f)) s1) as [s2|] eqn:E2; [|discriminate].
+    destruct (mono_decr_feats (disable T n) Dsh IH o _ s1 s2 E2 S1) as (S2 & M2).
+    assert (K2 : get_fs s2 o f = get_fs s1 o f).
+    { eapply (keeps_loop_all o f); [|exact E2|exact P1]. intros g0 a r0 b H0. eapply (keeps_decr_with T o f); [exact Dpr | exact H0]. }
+    assert (P2 : prem o f s2) by (eapply prem_transport; eassumption).
+    set (s3 := set_fs s2 o f fs_clear_alt) in *.
+    assert (S3 : shaped s3) by (eapply same_shape_trans; [exact S2 | apply set_fs_shape; intros x; reflexivity]).
+    assert (R2 : (f <? nf s2 o)%nat = true) by (apply enabled_in_range; apply P2).
+    assert (G3 : get_fs s3 o f = fs_clear_alt (get_fs s2 o f)) by (apply get_fs_same; exact R2).
+    assert (M3 : exc s o' g - (if (o' =? o)%nat then zcnt g L1 else 0) <= exc s3 o' g).
+    { unfold s3. rewrite excess_clear_alt. rewrite K2. specialize (M1 o' g). specialize (M2 o' g). destruct (o' =? o)%nat; lia. }
+    assert (He3 : is_enabled s3 o f = true) by (unfold is_enabled; rewrite G3; cbn [fs_clear_alt fs_enabled]; apply P2).
+    assert (Hrc3 : rc s3 o f <= 0) by (unfold rc; rewrite G3; cbn [fs_clear_alt fs_rc]; apply P2).
+    (* children *)
+    destruct (if is_enabled s3 o 0 then decr_children T (disable T n) (o_children (get_obj s3 o)) L3 s3 else Some s3) as [s4|] eqn:E4; [|discriminate].
+    assert (Q4 : shaped s4 /\ get_obj s4 o = get_obj s3 o /\
+                 exc s3 o' g - (if is_enabled s3 o 0 then zcnt o' (o_children (get_obj s3 o)) * zcnt g L3 else 0) <= exc s4 o' g).
+    { destruct (is_enabled s3 o 0).
+      - destruct (mono_decr_children (disable T n) Dsh IH _ _ _ _ E4 S3) as (S4 & M4). split; [exact S4|]. split; [|apply M4].
+        assert (Bl : below ht s0 (ht o) s3 s4).
+        { eapply (below_decr_children T ht s0 (disable T n) (ht o) Dbe); [|exact E4]. intros c Hc.
+          apply Hht. destruct S3 as [_ S3']. destruct (S3' o) as (_ & A & _). rewrite <- A. exact Hc. }
+        destruct (Bl S3) as (_ & Bl2). apply Bl2. lia.
+      - inversion E4; subst. split; [exact S3|]. split; [reflexivity | lia]. }
+    destruct Q4 as (S4 & Eo4 & M4).
+    assert (He4 : is_enabled s4 o f = true) by (unfold is_enabled, get_fs; rewrite Eo4; exact He3).
+    assert (Hrc4 : rc s4 o f <= 0) by (unfold rc, get_fs; rewrite Eo4; exact Hrc3).
+    assert (Hen4 : is_enabled s4 o 0 = is_enabled s3 o 0) by (unfold is_enabled, get_fs; rewrite Eo4; reflexivity).
+    assert (Hcl4 : cls_of s4 o = cls_of s o) by (apply shaped_cls; assumption).
+    set (s5 := set_fs s4 o f fs_turn_off) in *.
+    assert (S5 : shaped s5) by (eapply same_shape_trans; [exact S4 | apply set_fs_shape; intros x; reflexivity]).
+    pose proof (excess_turn_off T s4 o f o' g He4) as M5. fold s5 in M5. rewrite Hcl4, Hen4, Eo4 in M5. fold L1 L3 in M5.
+    destruct (f =? 0)%nat eqn:E0.
+    - apply Nat.eqb_eq in E0. subst f. rewrite He3 in *.
+      destruct (free_with T (disable T n) o s5) as [s6|] eqn:E6; [|discriminate]. inversion H; subst. clear H.
+      destruct (mono_free_with (disable T n) Dsh IH Dbe o s5 s' E6 S5) as (_ & _ & M6). specialize (M6 o' g).
+      assert (C5 : o_children (get_obj s5 o) = o_children (get_obj s3 o)).
+      { unfold s5. rewrite set_fs_children. rewrite Eo4. reflexivity. }
+      assert (W5 : wch T s5 o g = wch T s4 o g - zcnt g L3).
+      { unfold s5. rewrite wch_set_fs. rewrite Nat.eqb_refl. rewrite (enabled_in_range _ _ _ He4). cbn [andb].
+        unfold termC. unfold is_enabled at 1. rewrite get_fs_same by (apply enabled_in_range; exact He4). cbn [fs_turn_off fs_enabled].
+        rewrite He4, Hcl4. fold L3. lia. }
+      rewrite C5, W5 in M6.
+      pose proof (zcnt_nonneg o' (o_children (get_obj s3 o))) as Hz.
+      destruct (o' =? o)%nat eqn:Eo'; destruct (g =? 0)%nat eqn:Eg; cbn [andb] in M5; nia.
+    - inversion H; subst. clear H.
+      pose proof (zcnt_nonneg o' (o_children (get_obj s3 o))) as Hz. pose proof (zcnt_nonneg g L3) as Hz3.
+      destruct (is_enabled s3 o 0); destruct (o' =? o)%nat eqn:Eo'; destruct (g =? f)%nat eqn:Eg; cbn [andb] in M5; nia.
+  Qed.
+End Monotone.
